@@ -643,6 +643,50 @@ func genCases(r *hlib.Run) []*kase {
 		m, what := mutate(rng, enc, f)
 		ks = append(ks, &kase{kind: "dec", name: "mutated:" + what, format: f, enc: m, model: true})
 	}
+	// decode: systematic single-byte corruption of every framing byte of a few small encodings
+	// (whole file when it is short, else the first 40 and the last 48 bytes), plus every truncation
+	// point and one appended byte
+	sysBases := [][]byte{nil, {0x00}, []byte("a"), rng.Bytes(3), rep(0x41, 60), textLike(r.Repo, rng, 200),
+		append(rep(0, 65536), 1, 2, 3)}
+	for bi, d := range sysBases {
+		for _, f := range []lz.FileFormat{lz.FileFormatLZMA, lz.FileFormatXz} {
+			enc, err := f.Encode(nil, d)
+			if err != nil {
+				continue
+			}
+			var pos []int
+			for i := range enc {
+				if len(enc) <= 120 || i < 40 || i >= len(enc)-48 {
+					pos = append(pos, i)
+				}
+			}
+			if f == lz.FileFormatXz {
+				for _, o := range chunkOffsets(enc) {
+					for j := 0; j < 7 && o+j < len(enc); j++ {
+						pos = append(pos, o+j)
+					}
+				}
+			}
+			for _, i := range pos {
+				for _, x := range []byte{0x01, 0x80, 0xFF} {
+					if x != 0x01 && bi >= 4 && i >= 40 && i < len(enc)-48 {
+						continue
+					}
+					m := append([]byte(nil), enc...)
+					m[i] ^= x
+					ks = append(ks, &kase{kind: "dec", name: "systematic:flip", format: f, enc: m, model: true})
+				}
+			}
+			for i := 0; i < len(enc); i++ {
+				if len(enc) <= 120 || i < 40 || i >= len(enc)-48 {
+					ks = append(ks, &kase{kind: "dec", name: "systematic:truncate", format: f, enc: append([]byte(nil), enc[:i]...), model: true})
+				}
+			}
+			for _, x := range []byte{0x00, 0x5A, 0xFF} {
+				ks = append(ks, &kase{kind: "dec", name: "systematic:append", format: f, enc: append(append([]byte(nil), enc...), x), model: true})
+			}
+		}
+	}
 	// decode: arbitrary bytes, bare and behind valid-looking headers
 	lzmaHdr := func(size uint64) []byte {
 		h := []byte{0x5D, 0x00, 0x10, 0x00, 0x00}
